@@ -414,7 +414,11 @@ class Dataset(AbstractDataset, dict, OpMixin, GetSetDelAttrMixin):
         # start with the axes, to make sure the ordering is maintained
         data.axes = self._getaxes_ortho(tuple_indices) 
         for nm in names:
-            data[nm] = self[nm].take(indices={dim:dict_indices[dim] for dim in self[nm].dims}, indexing='position')
+            var_indices = {dim:dict_indices[dim] for dim in self[nm].dims}
+            if len(var_indices) == 0:
+                data[nm] = self[nm] # 0-d: nothing to index, keep as is (with its metadata)
+            else:
+                data[nm] = self[nm].take(indices=var_indices, indexing='position')
         data.attrs.update(self.attrs) # dataset's metadata
         return data
 
